@@ -63,7 +63,17 @@ func execute(res *vh.Result, tr *vh.Trace, rs runSpec) runOut {
 	id := runCounter
 	var out runOut
 	bnd, _ := boundaries(rs.Script)
-	checked := scparser.IsScriptCorrect(rs.Script, nil) == nil
+	checked := false
+	func() {
+		defer func() {
+			if p := recover(); p != nil { // not part of the statement (nothing is executed yet): recorded, not judged
+				res.Inc("static_check_panics", 1)
+				res.AddDrift(map[string]any{"what": "scparser.IsScriptCorrect panicked", "panic": fmt.Sprint(p),
+					"script": hex.EncodeToString(rs.Script)})
+			}
+		}()
+		checked = scparser.IsScriptCorrect(rs.Script, nil) == nil
+	}()
 	out.Checked = checked
 	tr.Emit(map[string]any{"e": "i", "id": id, "src": rs.Src, "lim": limbs(rs.Limit), "chk": checked,
 		"len": len(rs.Script), "script": hex.EncodeToString(rs.Script), "base": rs.Base, "note": rs.Note})
